@@ -251,6 +251,7 @@ func runC16(c *Ctx) {
 		c16Register(c, p)
 		c16LoopDefault(c, p)
 		c16Limits(c, p)
+		c16EffectiveLimits(c, p)
 		// K7: S7 execution of the container parser's chunk walk
 		fns := loopFuncs(p, "internal/container")
 		for _, fn := range fns {
@@ -701,4 +702,211 @@ func c16Limits(c *Ctx, p *Program) {
 		}
 	}
 	c.Floor("K6-limit-error", n, 2)
+}
+
+// ---- K9: the effective limit on the number of frames is the same in both container parsers ----
+//
+// A parser that limits a record list L to K entries and appends to L on every loop iteration that
+// also (directly or through a call) appends a frame accepts at most K frames, whatever the limit on
+// the frame list itself says. The effective frame limit of container.Parser and of mux.Demuxer is
+// the minimum over such lists; the two must agree, otherwise a file one view accepts (GetFeatures,
+// DecodeConfig, Decode) is rejected by the other (demuxer, animation reader).
+
+type recLimit struct {
+	fn    *ssa.Function
+	field string
+	k     int64
+	pos   token.Pos
+}
+
+func c16EffectiveLimits(c *Ctx, p *Program) {
+	c.Rule("K9 effective frame limit: for container.Parser and mux.Demuxer, the smallest constant limit on any record list that grows whenever the frame list grows (its append dominates the frame append or the call that performs it, in the same function) is the parser's effective frame limit; both parsers have the same effective limit")
+	type side struct {
+		name      string
+		frames    string // field holding the frame records
+		limits    []recLimit
+		effective int64
+		why       string
+		pos       string
+	}
+	isFrameRec := func(t types.Type) bool {
+		sl, ok := t.Underlying().(*types.Slice)
+		if !ok {
+			return false
+		}
+		st, ok := sl.Elem().Underlying().(*types.Struct)
+		if !ok {
+			return false
+		}
+		hasOff, hasDur := false, false
+		for i := 0; i < st.NumFields(); i++ {
+			switch specFieldID(st.Field(i).Name()) {
+			case "x":
+				hasOff = true
+			case "duration":
+				hasDur = true
+			}
+		}
+		return hasOff && hasDur
+	}
+	var sides []*side
+	for _, tn := range []string{"Parser", "Demuxer"} {
+		sd := &side{name: tn, effective: -1}
+		var methods []*ssa.Function
+		for _, fn := range p.SrcFuncs() {
+			if recvNamedIs(fn, tn) && fn.Blocks != nil && (strings.HasSuffix(fn.Pkg.Pkg.Path(), "/mux") || strings.HasSuffix(fn.Pkg.Pkg.Path(), "/container")) {
+				methods = append(methods, fn)
+			}
+		}
+		if len(methods) == 0 {
+			c.AnchorMissing("K9-effective-limit", "methods of "+tn)
+			continue
+		}
+		// appends to receiver fields: fn -> field -> blocks
+		type app struct {
+			blk *ssa.BasicBlock
+			idx int
+		}
+		appends := map[*ssa.Function]map[string][]app{}
+		for _, fn := range methods {
+			for _, b := range fn.Blocks {
+				for i, in := range b.Instrs {
+					st, ok := in.(*ssa.Store)
+					if !ok {
+						continue
+					}
+					f, ok := recvFieldOf(fn, st.Addr)
+					if !ok {
+						continue
+					}
+					call, ok := st.Val.(*ssa.Call)
+					if !ok {
+						continue
+					}
+					if bi, ok := call.Call.Value.(*ssa.Builtin); !ok || bi.Name() != "append" {
+						continue
+					}
+					if appends[fn] == nil {
+						appends[fn] = map[string][]app{}
+					}
+					appends[fn][f] = append(appends[fn][f], app{b, i})
+					if isFrameRec(st.Val.Type()) {
+						sd.frames = f
+					}
+				}
+			}
+		}
+		if sd.frames == "" {
+			c.AnchorMissing("K9-effective-limit", "frame list of "+tn)
+			continue
+		}
+		// functions that (transitively, through methods of the same receiver) append a frame
+		appendsFrame := map[*ssa.Function]bool{}
+		for fn, m := range appends {
+			if len(m[sd.frames]) > 0 {
+				appendsFrame[fn] = true
+			}
+		}
+		for changed := true; changed; {
+			changed = false
+			for _, fn := range methods {
+				if appendsFrame[fn] {
+					continue
+				}
+				for _, b := range fn.Blocks {
+					for _, in := range b.Instrs {
+						if call, ok := in.(*ssa.Call); ok {
+							if cal := call.Common().StaticCallee(); cal != nil && appendsFrame[cal] {
+								appendsFrame[fn] = true
+								changed = true
+							}
+						}
+					}
+				}
+			}
+		}
+		// limits
+		for _, fn := range methods {
+			for _, b := range fn.Blocks {
+				iff, ok := b.Instrs[len(b.Instrs)-1].(*ssa.If)
+				if !ok {
+					continue
+				}
+				bin, ok := iff.Cond.(*ssa.BinOp)
+				if !ok {
+					continue
+				}
+				for _, pr := range [][2]ssa.Value{{bin.X, bin.Y}, {bin.Y, bin.X}} {
+					call, ok := pr[0].(*ssa.Call)
+					if !ok {
+						continue
+					}
+					if bi, ok := call.Call.Value.(*ssa.Builtin); !ok || bi.Name() != "len" {
+						continue
+					}
+					ld, ok := call.Call.Args[0].(*ssa.UnOp)
+					if !ok || ld.Op != token.MUL {
+						continue
+					}
+					f, ok := recvFieldOf(fn, ld.X)
+					if !ok {
+						continue
+					}
+					k, ok := pr[1].(*ssa.Const)
+					if !ok || k.Value == nil || k.Value.Kind() != constant.Int {
+						continue
+					}
+					kv, _ := constant.Int64Val(k.Value)
+					if kv <= 1 {
+						continue
+					}
+					sd.limits = append(sd.limits, recLimit{fn, f, kv, bin.Pos()})
+				}
+			}
+		}
+		for _, l := range sd.limits {
+			applies := l.field == sd.frames
+			if !applies {
+				// does an append to l.field dominate a frame append (or a call that appends a frame)?
+				for fn, m := range appends {
+					for _, a := range m[l.field] {
+						for _, b := range fn.Blocks {
+							for i, in := range b.Instrs {
+								isFrameSite := false
+								if st, ok := in.(*ssa.Store); ok {
+									if f, ok := recvFieldOf(fn, st.Addr); ok && f == sd.frames {
+										isFrameSite = true
+									}
+								}
+								if call, ok := in.(*ssa.Call); ok {
+									if cal := call.Common().StaticCallee(); cal != nil && appendsFrame[cal] {
+										isFrameSite = true
+									}
+								}
+								if !isFrameSite {
+									continue
+								}
+								if (a.blk == b && a.idx < i) || (a.blk != b && a.blk.Dominates(b)) {
+									applies = true
+								}
+							}
+						}
+					}
+				}
+			}
+			if applies && (sd.effective < 0 || l.k < sd.effective) {
+				sd.effective = l.k
+				sd.why = fmt.Sprintf("limit %d on %s in %s", l.k, l.field, l.fn.Name())
+				sd.pos = p.Pos(l.pos)
+			}
+		}
+		sides = append(sides, sd)
+	}
+	if len(sides) != 2 {
+		return
+	}
+	a, b := sides[0], sides[1]
+	c.Check(a.effective == b.effective && a.effective > 0, "K9-effective-limit", a.name+"~"+b.name, b.pos,
+		fmt.Sprintf("both parsers accept at most %d frames (%s; %s)", a.effective, a.why, b.why),
+		fmt.Sprintf("container.%s accepts up to %d frames (%s) but mux.%s up to %d (%s): a file with more frames than the smaller limit is reported in full by one container view and rejected by the other", a.name, a.effective, a.why, b.name, b.effective, b.why))
 }
